@@ -9,7 +9,8 @@ package logout
 //@                      after Sess.Del("uid") && after Sess.Del("halfauth") && after Sess.Del("last_action") && after Cook.Del("rm"))
 //@
 //@ func (*Logout).Logout
-//@   property C10 C18
+//@   property C10 C18 C17
+//@   ensures[C17] no_secret_leak: secrets_clean
 //@   -- unless a before-logout handler took over (or failed), the response deletes every
 //@   -- non-whitelisted session value, the identity keys, and the remember cookie - before
 //@   -- any after-event or redirect, and never writes a session or cookie value itself
